@@ -111,9 +111,20 @@ func checkEvent(c *Ctx, o *Obl, p *Path, i int, v *evtView, want map[string]stri
 
 var hostPerBridge = []string{"BridgeConfigs", "BatchInfos", "NextL1Sequences", "TokenPairs", "OutputProposals", "NextOutputIndexes", "ProvenWithdrawals"}
 
-func isNewBridgeId(t *Term) bool {
-	k := strip(t).Key()
-	return k == "(collections.Sequence).Next(ms.Keeper.NextBridgeId, ctx).0" || k == "1"
+// newBridgeIdOn: the id CreateBridge allocated on this path = the first result of
+// IncreaseNextBridgeId as returned on this very path (Sequence.Next()#n.0, or the
+// literal start value on the first-use path).  Path-specific on purpose: a
+// constant that merely equals the start value is not "the new id" on the
+// paths where the allocator returned the stored counter.
+func newBridgeIdOn(p *Path) func(*Term) bool {
+	want := ""
+	for i := range p.Events {
+		ev := &p.Events[i]
+		if ev.Kind == EvExit && ev.Call != nil && strings.HasSuffix(ev.Call.Name, "Keeper).IncreaseNextBridgeId") && ev.Res != nil && ev.Res.Op == "tuple" && len(ev.Res.Args) == 2 {
+			want = strip(ev.Res.Args[0]).String()
+		}
+	}
+	return func(t *Term) bool { return want != "" && strip(t).String() == want }
 }
 
 // bridgeKeyOf: the bridge-id component of a collections key / range argument.
@@ -322,10 +333,10 @@ func propC01(c *Ctx) {
 			fn := hs[hn]
 			o := c.Ob("C01.R4", "ophost."+hn+": every per-bridge key, BridgeAddress and L2Denom argument is the addressed bridge id")
 			isID := func(t *Term) bool { return strip(t).Key() == "req.BridgeId" }
-			if hn == "CreateBridge" {
-				isID = isNewBridgeId
-			}
 			for _, p := range c.Paths(fn, PO{Params: hParams, NoInline: []string{".Validate"}, Callbacks: true}) {
+				if hn == "CreateBridge" {
+					isID = newBridgeIdOn(p)
+				}
 				o.Paths++
 				o.Facts += p.NFacts()
 				for i := range p.Events {
@@ -375,6 +386,8 @@ func propC01(c *Ctx) {
 			of.Fail("-", fmt.Sprintf("only %d per-bridge access sites were examined", total), nil)
 		}
 	})
+
+	c.Rule("C01.R8", func() { layoutRule(c, "C01.R8", []string{"BridgeAddress"}) })
 
 	c.Rule("C01.R6", func() {
 		hs := c.Handlers("ophost")
@@ -429,6 +442,7 @@ func propC01(c *Ctx) {
 		cb := hostHandler(c, "CreateBridge")
 		for _, p := range c.Paths(cb, hostPO) {
 			o.Paths++
+			isNewBridgeId := newBridgeIdOn(p)
 			for _, i := range p.Find(func(ev *Event) bool { return ev.Kind == EvCall && isCall(ev, "AccountKeeper).NewAccount") }) {
 				acc := p.Events[i].Call.Args[2]
 				ok := false
@@ -464,6 +478,8 @@ func propC10(c *Ctx) {
 	c.NotDecided = append(c.NotDecided, "gap-freeness as a statement over histories (follows from +1-per-success under A2/A3)")
 	c.Assumptions = append(c.Assumptions, "A1", "A2", "A3", "A10")
 	fn := hostHandler(c, "InitiateTokenDeposit")
+
+	c.Rule("C10.R6", func() { layoutRule(c, "C10.R6", []string{"L2Denom"}) })
 
 	c.Rule("C10.R1", func() {
 		hs := c.Handlers("ophost")
